@@ -305,7 +305,7 @@ func scanGLSL(text string) *glslScan {
 				b.binding = atoi(bm[1])
 			}
 			body := m[5]
-			for !strings.Contains(body, "};") && i+1 < len(lines) {
+			for !strings.Contains(body, "}") && i+1 < len(lines) {
 				i++
 				body += "\n" + lines[i]
 			}
